@@ -109,9 +109,9 @@ def run(ctx):
             for lo, h in ((0, 100), (101, 200), (201, 300)):
                 lines.append("msg type=%d family=%s seed=%d lo=%d hi=%d pairs=%s" % (
                     t, fam, ctx.seed, lo, min(h, hi), ",".join(str(p) for p in pairs if lo <= p <= h) or "-1"))
-    biglen = (1 << 29) + 64 if not quick else (1 << 22) + 7
+    biglen = (1 << 29) + 64   # the bit count no longer fits 32 bits
     for t in ((0, 1, 2, 3) if not quick else (1, 2)):
-        lines.append("big type=%d len=%d piece=%d" % (t, biglen, 1048576 if not quick else 65536))
+        lines.insert(0, "big type=%d len=%d piece=%d" % (t, biglen, 1048576))
     args = [(v, l) for l in lines for v in ("asan", "asan-bundled")]
     res = core.pmap(run_job, args)
     ctx.bounds = {"lengths": "0..%d" % hi, "families": fams, "two_cut_lengths": pairs, "types": [0, 1, 2, 3],
